@@ -103,9 +103,6 @@ class Model:
                 try:
                     src = open(path, encoding='utf-8').read()
                     tree = ast.parse(src, filename=path)
-                    if os.environ.get('SA_NO_NORMALIZE') != '1':
-                        from .normalize import normalize_module
-                        tree = normalize_module(tree, modname)
                 except (SyntaxError, UnicodeDecodeError, OSError) as e:
                     self.parse_errors.append((rel, str(e)))
                     continue
@@ -114,6 +111,11 @@ class Model:
                 self.modules[modname] = mod
         if self.parse_errors:
             raise AnalysisError('files that do not parse: %s' % self.parse_errors)
+        if os.environ.get('SA_NO_NORMALIZE') != '1':
+            from .normalize import normalize_module
+            _splice_private_modules(self.modules)
+            for mod in self.modules.values():
+                mod.tree = normalize_module(mod.tree, mod.modname)
         if len(self.modules) < MIN_FILES:
             raise AnalysisError('only %d package files parsed, expected >= %d' % (len(self.modules), MIN_FILES))
         for mod in self.modules.values():
@@ -405,6 +407,130 @@ class Model:
         else:
             return None
         return self.canonical('.'.join([base] + parts))
+
+
+# -------------------------------------------------------------------- private modules are part of the module that imports them
+def _import_map(mod):
+    """top-level name -> dotted target for the import statements of a module (relative imports resolved)"""
+    out = {}
+    pkgparts = mod.modname.split('.') if getattr(mod, 'is_pkg', False) else mod.modname.split('.')[:-1]
+    for node in mod.tree.body:
+        if isinstance(node, ast.Import):
+            for a in node.names:
+                out[a.asname or a.name.split('.')[0]] = a.name if a.asname else a.name.split('.')[0]
+        elif isinstance(node, ast.ImportFrom):
+            base = node.module or ''
+            if node.level:
+                up = pkgparts[:len(pkgparts) - (node.level - 1)]
+                base = '.'.join(up + ([base] if base else []))
+            for a in node.names:
+                out[a.asname or a.name] = base + '.' + a.name
+    return out
+
+
+def _splice_private_modules(modules):
+    """`from ._helpers import f, g` where _helpers is a private module of the package: the definitions of f and g (and the module-level names of _helpers they use)
+    are copied into the importing module in place of the import, so that code moved into a private sibling module is analysed where it is used - the rules anchor on
+    the modules that expose a function, and private helpers are inlined by the normaliser.  Done only when every global the moved code reads means the same in
+    both modules (same import target) or moves along; otherwise the import is left as it is."""
+    import builtins, copy
+    imaps = {m.modname: _import_map(m) for m in modules.values()}
+
+    def toplevel(mod):
+        d = {}
+        for n in mod.tree.body:
+            if isinstance(n, (ast.FunctionDef, ast.ClassDef)):
+                d[n.name] = n
+            elif isinstance(n, ast.Assign) and len(n.targets) == 1 and isinstance(n.targets[0], ast.Name):
+                d[n.targets[0].id] = n
+        return d
+    tops = {m.modname: toplevel(m) for m in modules.values()}
+
+    def free_globals(node):
+        bound = set()
+        for x in ast.walk(node):
+            if isinstance(x, ast.arg):
+                bound.add(x.arg)
+            elif isinstance(x, ast.Name) and isinstance(x.ctx, (ast.Store, ast.Del)):
+                bound.add(x.id)
+            elif isinstance(x, (ast.FunctionDef, ast.ClassDef)) and x is not node:
+                bound.add(x.name)
+        return {x.id for x in ast.walk(node) if isinstance(x, ast.Name) and isinstance(x.ctx, ast.Load) and x.id not in bound and not hasattr(builtins, x.id)}
+
+    for M in list(modules.values()):
+        if M.modname.rsplit('.', 1)[-1].startswith('_') and not getattr(M, 'is_pkg', False):
+            continue            # private modules themselves are left alone
+        mine = tops[M.modname]
+        new_body = []
+        changed = False
+        pkgparts = M.modname.split('.') if getattr(M, 'is_pkg', False) else M.modname.split('.')[:-1]
+        for stmt in M.tree.body:
+            if not isinstance(stmt, ast.ImportFrom):
+                new_body.append(stmt)
+                continue
+            base = stmt.module or ''
+            if stmt.level:
+                up = pkgparts[:len(pkgparts) - (stmt.level - 1)]
+                base = '.'.join(up + ([base] if base else []))
+            P = modules.get(base)
+            if P is None or P is M or not base.rsplit('.', 1)[-1].startswith('_') or base.rsplit('.', 1)[-1].startswith('__') or getattr(P, 'is_pkg', False):
+                new_body.append(stmt)
+                continue
+            keep, moved = [], []
+            for a in stmt.names:
+                d = tops[base].get(a.name)
+                if d is None or a.name == '*':
+                    keep.append(a)
+                    continue
+                # transitive closure of the module-level names of P the definition uses
+                need, todo, ok = {}, [(a.asname or a.name, a.name, d)], True
+                while todo and ok:
+                    as_name, orig, node = todo.pop()
+                    if orig in need:
+                        continue
+                    need[orig] = (as_name, node)
+                    for g in sorted(free_globals(node)):
+                        if g == orig or g in need:
+                            continue
+                        if g in tops[base]:
+                            todo.append((g, g, tops[base][g]))
+                        elif g in imaps[base]:
+                            if imaps[M.modname].get(g) != imaps[base][g]:
+                                ok = False
+                        else:
+                            ok = False
+                # name clashes with the importing module's own definitions
+                for orig, (as_name, node) in need.items():
+                    if as_name in mine and mine[as_name] is not node:
+                        ok = False
+                if not ok:
+                    keep.append(a)
+                    continue
+                for orig, (as_name, node) in need.items():
+                    if as_name in mine:
+                        continue
+                    c = copy.deepcopy(node)
+                    if isinstance(c, (ast.FunctionDef, ast.ClassDef)) and as_name != orig:
+                        c.name = as_name
+                    if isinstance(c, ast.Assign) and as_name != orig:
+                        c.targets[0].id = as_name
+                    c._sa_spliced_from = base
+                    moved.append(c)
+                    mine[as_name] = c
+                # a renamed import: uses inside the moved closure keep the original names, so bind the alias as well
+            if moved:
+                changed = True
+                if keep:
+                    stmt.names = keep
+                    new_body.append(stmt)
+                # definitions that other moved definitions depend on come first (constants, then classes / functions in original order)
+                moved.sort(key=lambda n: (0 if isinstance(n, ast.Assign) else 1, getattr(n, 'lineno', 0)))
+                new_body.extend(moved)
+            else:
+                new_body.append(stmt)
+        if changed:
+            M.tree.body = new_body
+            ast.fix_missing_locations(M.tree)
 
 
 # -------------------------------------------------------------------- small ast helpers
